@@ -11,6 +11,9 @@ CLAIMS = {
  'C05': ('model_checking', '2-safety lemma (twin machines) and frame lemma for every debugger method, each one symbolic call from an arbitrary invariant state; histories of any length follow by induction.', 'DESIGN.md 3 C05', 'Inv_tab/Inv_en assumed in the pre-state and re-established; composition argument', 'CBMC 2-safety self-composition of VM::executeSingle + per-method frame conditions'),
  'C06': ('model_checking', 'Stop rule, current-location report and enabled-set bookkeeping checked per method from arbitrary invariant states against a ghost model; execute() against a shadow run.', 'DESIGN.md 3 C06', 'ghost model of the enabled set; bounded fuel for execute()', 'CBMC one-step checks of VM debugger API against a ghost enabled-set model'),
  'C17': ('model_checking', 'reset() from an arbitrary invariant state equals a freshly constructed machine field by field; HALT step is the identity.', 'DESIGN.md 3 C17', 'Inv, Inv_tab, Inv_en in the pre-state', 'CBMC field-wise equality of VM::reset() result with VM(original program)'),
+ 'C07': ('translation_validation', 'Per enumerated program shape (canonical layout) the natively compiled program is run by the real VM symbolically in all literal values and compared stop by stop with a reference interpreter that emits line events.', 'DESIGN.md 3 C07', 'shape family enumerated, literals symbolic; compiler executed natively per shape; reference = lib/theolang.py', 'CBMC symbolic execution of the real VM on natively compiled shapes vs reference interpreter (translation validation)'),
+ 'C14': ('model_checking', 'Bisimulation of the scanner automata (committed flex tables, lexer.l, fixed token spec, regenerated tables) proved as a one-step inductive SMT query over all 256 bytes (inputs of any length), plus bounded symbolic-string checks of the flex matching loop (longest match, line numbers).', 'DESIGN.md 2.3 / 3 C14', 'flex runtime buffer management not modelled; table model validated against the native yylex on every run', 'SMT (z3 + cvc5) inductive bisimulation query over DFAs extracted from lex.yy.c / lexer.l / tokens.spec'),
+ 'C16': ('translation_validation', 'Per compiled shape the solver finds a routine annotation proving the call graph acyclic (existential SAT query) and the real VM run (symbolic literals) respects the depth bound and halts after exactly the reference number of steps.', 'DESIGN.md 3 C16', 'shape family enumerated; compiler native per shape', 'SAT-found region annotation (CBMC) + symbolic VM run vs reference step count'),
  'C19': ('model_checking', 'Inductive invariant data.size()==sum of live frame sizes and contiguity, preserved by one symbolic step for all opcodes.', 'DESIGN.md 3 C19', 'WF program; bounds in evidence', 'CBMC one-step induction over VM::executeSingle'),
  'C20': ('model_checking', 'Signed-overflow assertions on the nsw arithmetic of the real step for all 32-bit operands plus the natural-number invariant.', 'DESIGN.md 3 C20', 'WF program (CONST operands >= 0)', 'CBMC --signed-overflow-check on IR-derived C of VM::executeSingle, all operand values'),
 }
@@ -29,13 +32,15 @@ def main():
     checks = []
     for p in sorted(claims):
         cat, text, ref, note, tech = claims[p]
+        eng = 'E2' if p == 'C14' else 'E1'
         checks.append({'property_id': p, 'quick_cmd': 'python3 check.py %s --tier quick' % p, 'thorough_cmd': 'python3 check.py %s --tier thorough' % p,
-                       'evidence_file': 'evidence/%s.json' % p, 'replay_cmd_template': 'python3 check.py --replay {path}', 'engine': 'E1',
+                       'evidence_file': 'evidence/%s.json' % p, 'replay_cmd_template': 'python3 check.py --replay {path}', 'engine': eng,
                        'level_claimed': {'category': cat, 'text': text, 'design_ref': ref}, 'level_note': note, 'technique': tech})
     m = {'version': 1, 'setup_cmd': 'python3 tools/setup.py',
          'hooks': {'guard': 'THEO_IDE_LIBTHEO_VERIF', 'enable': 'none needed: harness translation units are compiled with -fno-access-control and include the real .cpp files; no source hooks exist',
                    'baseline_off_cmd': BASE_OFF, 'source_commits': [], 'add_only': True},
-         'engines': [{'name': 'E1', 'path': 'lib/e1.py', 'serves_properties': sorted(claims), 'kind_free_text': E1}],
+         'engines': [{'name': 'E1', 'path': 'lib/e1.py', 'serves_properties': sorted(c for c in claims if c != 'C14'), 'kind_free_text': E1},
+                     {'name': 'E2', 'path': 'lib/lexenc.py', 'serves_properties': ['C14'], 'kind_free_text': 'scanner tables of lex.yy.c, lexer.l and a fixed token spec -> DFAs -> SMT-LIB (z3 5.1 via python3-vt, cvc5 1.0), inductive bisimulation and bounded munch queries'}],
          'checks': checks,
          'notes': 'Every check regenerates its encoding from /repo\'s working tree. fix: commits in /repo: see known_findings.json.',
          'not_applicable': [{'property_id': p, 'reason': na[p]} for p in sorted(na)]}
